@@ -30,6 +30,12 @@ add("C18","C18_waits_for_inflight","with an ample context Stop waits for the req
  "∀ (n : Nat) (s : St), Reach n s → s.ctxAmple = true → s.aborted = 0 ∧ ((∃ e, s.caller = .stopReturned e) → ∀ p ∈ s.provs, p.inflight = 0)")
 add("C18","C18_start_signals_all","Start returns only after every provider goroutine has signalled that it is about to serve.",
  "∀ (n : Nat) (s : St), Reach n s → (s.caller = .startReturned ∨ (∃ k e, s.caller = .stopping k e) ∨ (∃ e, s.caller = .waitingStopWg e) ∨ (∃ e, s.caller = .stopReturned e)) →\n    s.provs.length = n ∧ ∀ p ∈ s.provs, p.pc ≠ .notStarted")
+add("C18","C18_retried_stop_waits","Stop called again (model TV.StopRetry: any number of Stop calls on web providers, any contexts, any requests still running): every call with an ample context — whatever earlier calls gave up on — returns nil, and only when no request is running any more.",
+ "∀ (n : Nat) (f : Nat → Nat) (s : StopRetry.St), StopRetry.Reach n f s →\n    ∀ r ∈ s.returned, r.1 = true → r.2.1 = false ∧ r.2.2 = 0")
+add("C18","C18_retried_stop_progress","a Stop call in progress is never stuck: it can move on, or it is waiting (ample context) for a running request of the provider it is at, and that request can complete.",
+ "∀ (n : Nat) (f : Nat → Nat) (s : StopRetry.St), StopRetry.Reach n f s → ∀ (k : Nat) (a e : Bool), s.stopping = some (k, a, e) →\n    (StopRetry.step? s .provStop).isSome = true ∨\n    (a = true ∧ k < s.n ∧ 0 < s.inflight k ∧ (StopRetry.step? s (.finishReq k)).isSome = true)")
+add("C18","C18_expired_stop_cuts_nothing","a Stop call never cuts a web request off, whatever its context: the walk over the providers leaves the running requests as they are (they end by completing).",
+ "∀ (s s' : StopRetry.St), StopRetry.step? s .provStop = some s' → s'.inflight = s.inflight")
 
 if emit_spec:
     with open(f"{base}/Proofs/Server.lean", "w") as f:
@@ -39,7 +45,7 @@ if emit_spec:
             f.write(f"{op}theorem {name} :\n    {stmt} := sorry\n\n")
         f.write("end Proofs\nend TV.Server\n")
 titles = {"C17":"Server serves every configured route and service through transparent middleware","C18":"Server starts every listener and stops gracefully and completely"}
-opens = {"C17":"open TV.Middleware TV.Server","C18":"open TV.ServerLifecycle TV.Server"}
+opens = {"C17":"open TV.Middleware TV.Server","C18":"open TV.ServerLifecycle TV.Server TV"}
 extra = {
 "C17": '''/-! witnesses for the pinned tree -/
 
@@ -62,6 +68,15 @@ example : ∃ s, runActs (init 2) [.startCall, .spawn, .spawn, .provSignal 0, .p
     .provStop, .provStop, .provStop, .provServe 1, .provReturn 0, .provReturn 1, .stopWgDone] = some s ∧
     s.caller = .stopReturned false ∧ s.stopWg = 0 := by
   refine ⟨_, rfl, ?_⟩; decide
+
+/-! non-vacuity (retried Stop): two providers, two requests running on the first; the expired call gives up with an error and both
+    still running; the ample one cannot move before both have completed, and returns nil -/
+example : ∃ s, StopRetry.runActs (StopRetry.init 2 (fun i => if i = 0 then 2 else 0))
+    [.stopCall false, .provStop, .provStop, .provStop, .stopCall true] = some s ∧
+    s.returned = [(false, true, 2)] ∧ (StopRetry.step? s .provStop).isNone = true := ⟨_, rfl, by decide, by decide⟩
+example : ∃ s, StopRetry.runActs (StopRetry.init 2 (fun i => if i = 0 then 2 else 0))
+    [.stopCall false, .provStop, .provStop, .provStop, .stopCall true, .finishReq 0, .finishReq 0, .provStop, .provStop, .provStop] = some s ∧
+    s.returned = [(true, false, 0), (false, true, 2)] := ⟨_, rfl, by decide⟩
 ''',
 }
 for prop in titles:
